@@ -431,6 +431,7 @@ def check_other_series(ctx, cases):
         else:
             pct = [float(rng.uniform(0, 130)) for _ in range(rng.choice([n, n + 5, 200]))]
         c["_fishmode"], c["_pct"] = mode, pct
+        c["_start_month"] = rng.choice([5, 5, 1, 2, 12, rng.randint(1, 12)])  # calculate_stored_food_to_use(starting_month)
     # the opaque fish setter of scenarios.py against the model's table
     from src.scenarios.scenarios import Scenarios
     sc = Scenarios()
